@@ -14,6 +14,30 @@ Qed.
 Lemma node_of_inj a b : node_of a = node_of b -> a = b.
 Proof. destruct a, b; unfold node_of; simpl. intros H; inversion H; reflexivity. Qed.
 
+Lemma pop_frame_taint st : s_taint (pop_frame st) = s_taint st.
+Proof.
+  unfold pop_frame. destruct (s_stack st) as [|i rest]; [reflexivity|].
+  set (st1 := upd_stack st rest).
+  set (st2 := match nearest_cached st1 rest with
+              | Some caller => if is_cached st (fst i) then g_add_edge st1 (node_of i) (node_of caller)
+                               else g_add_edge st1 (NObj (fst i)) (node_of caller)
+              | None => if is_cached st (fst i) then g_add_node st1 (node_of i) else st1
+              end).
+  assert (H2 : s_taint st2 = s_taint st).
+  { unfold st2. destruct (nearest_cached st1 rest); destruct (is_cached st (fst i)); reflexivity. }
+  destruct (is_cached st (fst i)).
+  - pose proof (pop_refs_taint st2 (List.length rest) i (s_refstack st2)) as K.
+    destruct (pop_refs st2 (List.length rest) i (s_refstack st2)) as [st3 rs]. simpl in *. congruence.
+  - destruct rest; simpl; exact H2.
+Qed.
+
+Lemma rollback_frame_taint st i rest ln :
+  s_stack st = i :: rest -> s_taint (rollback_frame st ln) = List.length rest.
+Proof.
+  intros Es. unfold rollback_frame. rewrite Es. simpl.
+  destruct (mem_node (node_of i) (s_nodes st)); reflexivity.
+Qed.
+
 (** * Cache hit inside a formula *)
 Lemma Cov_hit st i jc :
   Inv st -> Cov st -> StackOK st -> has st i ->
@@ -46,6 +70,7 @@ Proof.
   - exact (cv_refs _ C).
   - intros c Hc'. apply g_add_edge_nodes in Hc' as [Hc'|[Hc'|Hc']]; try (destruct i; discriminate);
       try (destruct jc; discriminate). exact (cv_obj _ C c Hc').
+  - exact (cv_taint _ C).
 Qed.
 
 (** * Entering a formula *)
@@ -65,6 +90,7 @@ Proof.
     + intros x Hx. destruct (cv_items _ C x Hx) as (A & [B|B]); split; auto.
     + eapply rs_ok_weaken; [|exact (cv_refs _ C)]. lia.
     + exact (cv_obj _ C).
+    + pose proof (cv_taint _ C). lia.
   - intros x [<-|Hx] Hc; simpl.
     + unfold is_cached in Hc. simpl in Hc. rewrite El in Hc. now rewrite Hc in Em.
     + now apply SO.
@@ -174,6 +200,7 @@ Proof.
     + rewrite FK. apply RS. pose proof (cv_refs _ C) as R. now rewrite Es in R.
     + intros c Hc'. apply RN in Hc' as (Hc' & _). rewrite (is_cached_cells st _ _ Hcells).
       exact (cv_obj _ C c Hc').
+    + rewrite FK, (rollback_frame_taint st i rest ln Es). apply le_n.
   - intros x Hx Hc. rewrite FK in Hx. rewrite FD.
     apply SO; [rewrite Es; now right|].
     now rewrite <- (is_cached_cells st _ _ Hcells).
@@ -197,7 +224,7 @@ Qed.
 
 Lemma Good_pop_cached st2 i rest v f ds :
   Good st2 -> s_stack st2 = i :: rest -> ~ In i rest ->
-  is_cached st2 (fst i) = true ->
+  is_cached st2 (fst i) = true -> s_taint st2 <= List.length rest ->
   lookup_data (s_data st2) i = None -> mem_item i (s_inputs st2) = false ->
   dr_own f (defs_of st2) (input_data st2) i = (Val v, ds) ->
   Forall (cov_pending st2 (Some i) (fst i) (List.length rest)) ds ->
@@ -208,7 +235,7 @@ Lemma Good_pop_cached st2 i rest v f ds :
   (forall jc, nearest_cached st2 rest = Some jc ->
               In (node_of i, node_of jc) (s_edges (pop_frame st3))).
 Proof.
-  intros (HI & C & SO) Es Hni Hc Hnone Hninp Hdr Hcov st3 HI'.
+  intros (HI & C & SO) Es Hni Hc Htn Hnone Hninp Hdr Hcov st3 HI'.
   assert (Es3 : s_stack st3 = i :: rest) by exact Es.
   assert (Hc3 : is_cached st3 (fst i) = true) by exact Hc.
   assert (Hnc3 : nearest_cached st3 rest = nearest_cached st2 rest) by (apply nearest_cached_cells; reflexivity).
@@ -282,6 +309,7 @@ Proof.
         apply PN in Hc' as [Hc'|[(jc & En & [Hc'|Hc'])|(En & _ & Hc')]];
           try (destruct i; discriminate); try (destruct jc; discriminate).
         exact (cv_obj _ C c Hc').
+      * rewrite FK. unfold st'. rewrite pop_frame_taint. exact Htn.
     + intros x Hx Hcx. rewrite FK in Hx. rewrite Hdata.
       assert (x <> i) by (intros ->; contradiction).
       rewrite lookup_set_other by assumption.
@@ -309,7 +337,7 @@ Qed.
 
 Lemma Good_pop_uncached st2 i rest :
   Good st2 -> s_stack st2 = i :: rest ->
-  is_cached st2 (fst i) = false ->
+  is_cached st2 (fst i) = false -> s_taint st2 <= List.length rest ->
   Inv (pop_frame st2) ->
   Good (pop_frame st2) /\ Grow st2 (pop_frame st2) /\
   (forall jc, nearest_cached st2 rest = Some jc ->
@@ -317,7 +345,7 @@ Lemma Good_pop_uncached st2 i rest :
               forall r, In (List.length rest, r) (s_refstack st2) ->
                         In (List.length rest - 1, r) (s_refstack (pop_frame st2))).
 Proof.
-  intros (HI & C & SO) Es Hc HI'.
+  intros (HI & C & SO) Es Hc Htn HI'.
   destruct (pop_frame_graph st2 i rest Es) as (PE & PN & PR1 & PR2 & PR3 & PS & _ & PM).
   unfold pop_src, pop_target in *. rewrite Hc in *.
   destruct (pop_frame_fields st2) as (FS & FD & FK & _).
@@ -367,6 +395,7 @@ Proof.
         -- inversion Hc'; subst. exact Hc.
         -- destruct jc; discriminate.
         -- discriminate.
+      * rewrite FK. unfold st'. rewrite pop_frame_taint. exact Htn.
     + intros x Hx Hcx. rewrite FK in Hx. rewrite FD.
       apply SO; [rewrite Es; now right|]. now rewrite <- (is_cached_cells st2 _ _ Hcells).
   - intros jc En. split.
